@@ -6,17 +6,18 @@ import vp
 PROD = {"plit": "1", "pstr": "'a'", "pvar": "m", "pnot": "(not m)", "pisdef": "(m is defined)", "pisnot": "(m is not defined)", "pin": "(1 in xs)", "pnotin": "(2 not in xs)",
         "peq": "(1 == 1)", "plt": "(1 < 2)", "pand": "(m and false)", "psub": "xs[0]", "pattr": "m.a", "pidx": "m['a']", "padd": "(1 + 1)", "pcat": "('a' ~ 'b')",
         "pfilt": "('a' | upper)", "pcall": "range(end=2)", "parr": "[1]", "ptern": "(1 if m else 2)", "pcomp": "[x for x in xs]", "pslice": "xs[0:1]", "ptrue": "true",
-        "pneg": "(-1)", "plen": "(xs | length)", "pmaplit": "{'a': 1}", "psubstr": "nm[0]", "pcomponent": "<ok />"}
+        "pneg": "(-1)", "plen": "(xs | length)", "pmaplit": "{'a': 1}", "psubstr": "nm[0]", "pcomponent": "<ok />",
+        "pnone": "none", "pundefopt": "m?.zz", "pfloat": "2.5", "pbytes": "by"}
 CONS = {"cadd": "{{ P + 1 }}", "cneg": "{{ -P }}", "cupper": "{{ P | upper }}", "cabs": "{{ P | abs }}", "cfor": "{% for q in P %}{% endfor %}", "clt": "{{ P < 1 }}",
         "cspreadm": "{{ {...P } }}", "cspreada": "{{ [...P] }}", "creplace": "{{ P | replace(from='a', to='b') }}", "cdiv0": "{{ P / 0 }}", "crange": "{{ range(start=-5, end=P) }}",
         "cisdiv": "{{ P is divisible_by(divisor=2) }}"}
 BUILTIN_CONS = ("cupper", "cabs", "creplace", "crange", "cisdiv")
 OKCOMP = "{% component ok() %}o{% endcomponent ok %}"
-CTX = {"m": {"a": 1}, "xs": [1], "nm": "n"}
+CTX = {"m": {"a": 1}, "xs": [1], "nm": "n", "by": {"$bytes": [65, 66]}}
 # hosts: where the expression stands (name -> templates around S, entry)
 HOSTS = {
     "entry": lambda S: ([["t.html", "a " + S + " z"]], "t.html"),
-    "component": lambda S: ([["c.html", "{% component k(m, xs, nm) %}" + S + "{% endcomponent k %}"], ["t.html", "{{<k m={m} xs={xs} nm={nm} />}}"]], "t.html"),
+    "component": lambda S: ([["c.html", "{% component k(m, xs, nm, by) %}" + S + "{% endcomponent k %}"], ["t.html", "{{<k m={m} xs={xs} nm={nm} by={by} />}}"]], "t.html"),
     "child-block": lambda S: ([["p.html", "{% block b %}{% endblock %}"], ["t.html", "{% extends 'p.html' %}{% block b %}" + S + "{% endblock %}"]], "t.html"),
     "included": lambda S: ([["i.html", S], ["t.html", "{% include 'i.html' %}"]], "t.html"),
     "set-block": lambda S: ([["t.html", "{% set v %}" + S + "{% endset %}{{ v }}"]], "t.html"),
